@@ -328,6 +328,7 @@ async def c01_sessions(ctx) -> None:
             # ---- the session ends by a fault (the accessory lost power: 4.04 to the next request / a request that is never
             # answered); whoever answers afterwards has to prove itself again - an impostor gets pair-verify and nothing else
             fault = ["reboot-404", "silent", "garbage-reply"][idx % 3]
+            old_session = acc.session
             acc.session = None
             hang = asyncio.Event()
             orig_handle = acc.handle
@@ -352,6 +353,28 @@ async def c01_sessions(ctx) -> None:
             for c in fac.created:
                 c.handler = orig_handle
             acc.verify_mode = "bad_sig"
+            # while the new pair-verify is in flight, somebody who recorded the OLD session's traffic sends one of its event
+            # datagrams to the socket the controller has just opened: nothing is dispatched before the peer has proved itself
+            events.clear()
+            stale_event = old_session["event"].encrypt(nonce(old_session["ec"]), b"".join([refcoap.encode_event_item(10, reftlv.encode([(1, b"\x00")]))]), b"")
+            probe = {"tried": 0, "served": 0}
+            verify_handle = acc.handle
+
+            async def handle_with_probe(msg):
+                if "/".join(msg.opt.uri_path) == "2" and acc.site is not None:
+                    res = acc.site._resources.get(()) if hasattr(acc.site, "_resources") else None
+                    probe["tried"] += 1
+                    if res is not None:
+                        probe["served"] += 1
+                        try:
+                            await res.render_put(Message(code=Code.PUT, payload=stale_event))
+                        except Exception:  # noqa: BLE001
+                            pass
+                return await verify_handle(msg)
+
+            acc.handle = handle_with_probe
+            for c in fac.created:
+                c.handler = handle_with_probe
             posts0, verifies0 = acc.posts_without_session, acc.verify_messages
             outcomes = []
             for n in range(2):
@@ -363,6 +386,10 @@ async def c01_sessions(ctx) -> None:
                     outcomes.append(("returned", r))
                 except Exception as ex:  # noqa: BLE001
                     outcomes.append(("raised", type(ex).__name__))
+            if events:
+                ctx.violation("event-dispatched-before-the-peer-is-verified", f"CoAP: after the session ended by {fault}, an event datagram of the OLD session sent to the new socket while pair-verify was in flight reached the listeners: {events!r}", replay)
+                continue
+            ctx.count("coap_stale_event_probes", probe["tried"])
             if acc.posts_without_session != posts0 or acc.session is not None or any(o[0] == "returned" for o in outcomes) or acc.verify_messages == verifies0:
                 ctx.violation("request-sent-to-unverified-peer", f"CoAP: after the session ended by {fault}, an impostor answered (pair-verify M2 does not authenticate); operations ended {outcomes}; "
                               f"pair-verify messages since: {acc.verify_messages - verifies0}, encrypted requests handed to the unverified peer: {acc.posts_without_session - posts0}", replay)
